@@ -75,6 +75,11 @@ theorem wrapAt_length (s1 : BState) (k : NK) (cur nb : Nat) :
   simp only [wrapAt, BState.mkBinop, BState.setParent]
   split <;> simp
 
+theorem wrapAt_frame (s1 : BState) (k : NK) (cur nb : Nat) :
+    (wrapAt s1 k cur nb).1.stack = s1.stack ∧ (wrapAt s1 k cur nb).1.cachedRoot = s1.cachedRoot := by
+  simp only [wrapAt, BState.mkBinop, BState.setParent]
+  split <;> simp [BState.modify, BState.alloc]
+
 theorem wrapAt_node (s1 : BState) (k : NK) (cur nb p : Nat) (hc : cur < s1.nodes.length)
     (hn : nb < s1.nodes.length) (hp : p < s1.nodes.length) (hpp : (s1.node cur).parent = some p)
     (h1 : cur ≠ nb) (h2 : p ≠ cur) (h3 : p ≠ nb) (j : Nat) :
@@ -436,7 +441,7 @@ structure Inv (s : BState) (T : Sel) : Prop where
   bound : ∀ j ∈ T.ids, 2 ≤ j ∧ j < s.nodes.length
   len : T.ids.length + 2 = s.nodes.length
 
-theorem Inv.of_nodes (s s' : BState) (T : Sel) (h : s'.nodes = s.nodes) (hi : Inv s T) : Inv s' T := by
+theorem Inv.of_nodes {s : BState} {T : Sel} (hi : Inv s T) (s' : BState) (h : s'.nodes = s.nodes) : Inv s' T := by
   have hn : ∀ j, s'.node j = s.node j := fun j => by simp [BState.node, h]
   refine ⟨RepT_congr s s' T 1 (fun j _ => hn j) hi.rep, ?_, ?_, ?_, ?_, hi.nodup, ?_, ?_⟩
   · rw [hn]; exact hi.top
@@ -445,5 +450,150 @@ theorem Inv.of_nodes (s s' : BState) (T : Sel) (h : s'.nodes = s.nodes) (hi : In
   · rw [hn]; exact hi.p0
   · rw [h]; exact hi.bound
   · rw [h]; exact hi.len
+
+
+theorem isBinop_of_kind (s : BState) (i : Nat) (k : SK) (h : (s.node i).kind = k.toNK) : s.isBinop i = true := by
+  unfold BState.isBinop; rw [h]; cases k <;> rfl
+
+/-- the surgery step on the invariant: the subtree `u` at path `P` is replaced by `k(u, new leaf)` -/
+theorem wrap_inv (s s' : BState) (P : List Frame) (u : Sel) (k : SK) (b : Nat)
+    (hi : Inv s (plug P u)) (hw : WrapSpec s s' k.toNK u.id (pid P) b) :
+    Inv s' (plug P (.node k (s.nodes.length + 1) u (.leaf s.nodes.length b []))) := by
+  obtain ⟨hu, hseg⟩ := (rep_plug s P u).mp ⟨hi.rep, hi.top⟩
+  have hperm := ids_plug P u
+  have hnd : (u.ids ++ pathIds P).Nodup := hperm.nodup_iff.mp hi.nodup
+  have hbd : ∀ j ∈ u.ids ++ pathIds P, 2 ≤ j ∧ j < s.nodes.length := fun j hj => hi.bound j (hperm.mem_iff.mpr hj)
+  have hlen : (u.ids ++ pathIds P).length + 2 = s.nodes.length := by rw [← hperm.length_eq]; exact hi.len
+  obtain ⟨hndu, hndp, hdisj⟩ := List.nodup_append.mp hnd
+  have hcur : u.id ∈ u.ids := id_mem_ids u
+  have hcb := hbd u.id (by simp [hcur])
+  have hL3 : 3 ≤ s.nodes.length := by
+    have : 1 ≤ u.ids.length := List.length_pos_of_mem hcur
+    simp only [List.length_append] at hlen; omega
+  -- the node above the hole is not in `u`, and is either the entity or a path node
+  have hpu : pid P ∉ u.ids := by
+    cases P with
+    | nil => intro h; have := hbd 1 (by simp [pid] at h; simp [h]); omega
+    | cons f P' => intro h; exact hdisj _ h f.id (by simp [pathIds]) rfl
+  have hpL : pid P < s.nodes.length := by
+    cases P with
+    | nil => simp only [pid]; omega
+    | cons f P' => exact (hbd f.id (by simp [pathIds, pid])).2
+  have hun_u : ∀ j ∈ u.ids, j ≠ u.id → s'.node j = s.node j := fun j hj hne =>
+    hw.other j hne (by rintro rfl; exact hpu hj) (by have := hbd j (by simp [hj]); omega)
+      (by have := hbd j (by simp [hj]); omega)
+  have hun_p : ∀ j ∈ pathIds P, j ≠ pid P → s'.node j = s.node j := fun j hj hne =>
+    hw.other j (by rintro rfl; exact hdisj _ hcur _ hj rfl) hne (by have := hbd j (by simp [hj]); omega)
+      (by have := hbd j (by simp [hj]); omega)
+  have hun0 : s'.node 0 = s.node 0 :=
+    hw.other 0 (by omega) (by cases P with
+      | nil => simp [pid]
+      | cons f P' => have := hbd f.id (by simp [pathIds]); simp only [pid]; omega) (by omega) (by omega)
+  have hun1 : P ≠ [] → s'.node 1 = s.node 1 := fun hP =>
+    hw.other 1 (by omega) (by cases P with
+      | nil => exact absurd rfl hP
+      | cons f P' => have := hbd f.id (by simp [pathIds]); simp only [pid]; omega) (by omega) (by omega)
+  -- the new subtree is represented
+  have hu' : RepT s' (pid P) (.node k (s.nodes.length + 1) u (.leaf s.nodes.length b [])) := by
+    simp only [RepT, hw.bin, hw.leaf, Sel.id, true_and, and_true]
+    exact RepT_reparent s s' u (pid P) _ hndu hw.cur_node hun_u hu
+  have hseg' : Seg s' P (s.nodes.length + 1) := by
+    cases P with
+    | nil => simp only [Seg]; exact hw.par_child
+    | cons f P' =>
+      simp only [Seg, pid] at hseg hw ⊢
+      obtain ⟨hk, hside, hpar, hsib, hrest⟩ := hseg
+      have hb := isBinop_of_kind s f.id f.k hk
+      have hsibne : f.sib.id ≠ u.id := fun e =>
+        hdisj _ hcur f.sib.id (by simp [pathIds, id_mem_ids]) e.symm
+      simp only [pathIds, List.nodup_cons, List.mem_append, not_or, List.nodup_append] at hndp
+      refine ⟨by rw [hw.par_kind]; exact hk, ?_, by rw [hw.par_parent]; exact hpar, ?_, ?_⟩
+      · cases hf : f.holeLeft
+        · simp only [hf, Bool.false_eq_true, ↓reduceIte] at hside ⊢
+          have := hw.par_r hb hside.2 (by rw [hside.1]; simpa using hsibne)
+          exact ⟨by rw [this.2]; exact hside.1, this.1⟩
+        · simp only [hf, ↓reduceIte] at hside ⊢
+          have := hw.par_l hb hside.1 (by rw [hside.2]; simpa using hsibne)
+          exact ⟨this.1, by rw [this.2]; exact hside.2⟩
+      · exact RepT_congr s s' f.sib f.id (fun j hj => hun_p j (by simp [pathIds, hj])
+          (by rintro rfl; exact hndp.1.1 hj)) hsib
+      · exact Seg_congr s s' P' f.id (hun1 (by simp)) (fun j hj => hun_p j (by simp [pathIds, hj])
+          (by rintro rfl; exact hndp.1.2 hj)) hrest
+  obtain ⟨hrep', htop'⟩ := (rep_plug s' P _).mpr ⟨hu', hseg'⟩
+  have hperm' := ids_plug P (.node k (s.nodes.length + 1) u (.leaf s.nodes.length b []))
+  have hperm2 : ((Sel.node k (s.nodes.length + 1) u (.leaf s.nodes.length b [])).ids ++ pathIds P).Perm
+      ((s.nodes.length + 1) :: s.nodes.length :: (u.ids ++ pathIds P)) := by
+    simp only [Sel.ids, List.cons_append, List.append_assoc, List.nil_append]
+    exact List.Perm.cons _ List.perm_middle
+  have hperm3 := hperm'.trans hperm2
+  refine ⟨hrep', htop', ?_, ?_, ?_, ?_, ?_, ?_⟩
+  · cases P with
+    | nil => have := hw.par_kind; simp only [pid] at this; rw [this]; exact hi.k1
+    | cons f P' => rw [hun1 (by simp)]; exact hi.k1
+  · cases P with
+    | nil => have := hw.par_parent; simp only [pid] at this; rw [this]; exact hi.p1
+    | cons f P' => rw [hun1 (by simp)]; exact hi.p1
+  · rw [hun0]; exact hi.p0
+  · rw [hperm3.nodup_iff]
+    simp only [List.nodup_cons, List.mem_cons, not_or]
+    refine ⟨⟨by omega, fun h => ?_⟩, fun h => ?_, hnd⟩
+    · have := hbd _ h; omega
+    · have := hbd _ h; omega
+  · intro j hj
+    have hj' := hperm3.mem_iff.mp hj
+    simp only [List.mem_cons] at hj'
+    rw [hw.len]
+    rcases hj' with rfl | rfl | h
+    · omega
+    · omega
+    · have := hbd j h; omega
+  · rw [hperm3.length_eq, hw.len]
+    simp only [List.length_cons]
+    omega
+
+
+theorem RepT_parent (s : BState) (par : Nat) (u : Sel) (h : RepT s par u) : (s.node u.id).parent = some par := by
+  cases u with
+  | leaf i b cs => exact h.2.2.2
+  | node k i l r => exact h.2.2.2.1
+
+/-- facts about the hole of a path in a store satisfying the invariant -/
+theorem hole_facts (s : BState) (P : List Frame) (u : Sel) (hi : Inv s (plug P u)) :
+    u.id < s.nodes.length ∧ 2 ≤ u.id ∧ pid P < s.nodes.length ∧ pid P ≠ u.id ∧
+      (s.node u.id).parent = some (pid P) ∧ 3 ≤ s.nodes.length := by
+  obtain ⟨hu, hseg⟩ := (rep_plug s P u).mp ⟨hi.rep, hi.top⟩
+  have hperm := ids_plug P u
+  have hnd : (u.ids ++ pathIds P).Nodup := hperm.nodup_iff.mp hi.nodup
+  have hbd : ∀ j ∈ u.ids ++ pathIds P, 2 ≤ j ∧ j < s.nodes.length := fun j hj => hi.bound j (hperm.mem_iff.mpr hj)
+  obtain ⟨hndu, hndp, hdisj⟩ := List.nodup_append.mp hnd
+  have hcur : u.id ∈ u.ids := id_mem_ids u
+  have hcb := hbd u.id (by simp [hcur])
+  refine ⟨hcb.2, hcb.1, ?_, ?_, RepT_parent s _ u hu, by omega⟩
+  · cases P with
+    | nil => simp only [pid]; omega
+    | cons f P' => exact (hbd f.id (by simp [pathIds, pid])).2
+  · cases P with
+    | nil => simp only [pid]; omega
+    | cons f P' => intro h; exact hdisj _ hcur f.id (by simp [pathIds]) (by simp only [pid] at h; exact h.symm)
+
+/-- `refinement` on the invariant: the current condition leaf is wrapped in place -/
+theorem ref_step (s : BState) (P : List Frame) (i b : Nat) (cs st : List Nat) (b' : Nat)
+    (hi : Inv s (plug P (.leaf i b cs))) (hs : s.stack = i :: st) :
+    ∃ s', s.doRefinement Quirks.today b' = some s' ∧
+      Inv s' (plug P (.node .exceptIf (s.nodes.length + 1) (.leaf i b cs) (.leaf s.nodes.length b' []))) ∧
+      s'.nodes.length = s.nodes.length + 2 ∧ s'.stack = s.stack ∧ s'.cachedRoot = s.cachedRoot ∧
+      s'.last = some s.nodes.length := by
+  obtain ⟨h1, _, h3, h4, h5, _⟩ := hole_facts s P _ hi
+  simp only [Sel.id] at h1 h4 h5
+  have hw := wrapSpec_relinkRef s .exceptIf i (pid P) b' h1 h3 h4 h5
+  have hinv := wrap_inv s _ P (.leaf i b cs) .exceptIf b' hi hw
+  rw [doRefinement_eq s i st b' hs]
+  refine ⟨_, rfl, ?_, ?_, ?_, ?_, rfl⟩
+  · exact hinv.of_nodes _ rfl
+  · exact hw.len
+  · show (relinkRef _ _ _ _).stack = _
+    rw [(relinkRef_frame _ _ _ _).2.1, (wrapAt_frame _ _ _ _).1]; rfl
+  · show (relinkRef _ _ _ _).cachedRoot = _
+    rw [(relinkRef_frame _ _ _ _).2.2, (wrapAt_frame _ _ _ _).2]; rfl
 
 end KrroodVerif.Rdr
